@@ -229,6 +229,10 @@ func (u *upstream) getClient(addr string) (*client, error) {
 	c, err := u.createClient(addr)
 	call.res, call.err = c, err
 	close(call.done)
+	// The call is only used to merge the concurrent attempts, forget it once
+	// finished. Otherwise its result (a client which may have exited in the
+	// meantime, or a stale error) would be returned for this address for ever.
+	u.createClientCalls.Delete(addr)
 	return c, err
 }
 
